@@ -5,10 +5,14 @@
 package c28
 
 import (
+	"context"
 	"encoding/json"
 	"fmt"
 	"sort"
 	"sync"
+
+	"github.com/dolthub/dolt/go/cmd/dolt/commands/engine"
+	"verifharness/util"
 
 	"verifharness/hk"
 	"verifharness/sqlsched"
@@ -47,7 +51,134 @@ func branchName(i int) string {
 	return fmt.Sprintf("b%d", i)
 }
 
+// ---------------------------------------------------------------------------------------------
+// Mode "server": two tables with their own sequences, transactions on branches, ALTER TABLE ..
+// AUTO_INCREMENT and restarts of the engine on the same database (tracker initialisation from roots).
+type SCase struct {
+	Mode    string  `json:"mode"`
+	NBranch int     `json:"nbranch"`
+	Sess    []int   `json:"sess"`
+	Autos   []int   `json:"autos"`
+	Steps   [][]int `json:"steps"` // [sess, kind, x, table]: 0 gen, 1 explicit x, 2 commit, 3 rollback, 4 switch to branch x, 5 restart, 6 alter auto_increment = x
+}
+
+type SObs struct {
+	Ids []int  `json:"ids"` // id the row got; -1 not an insert; -2 error
+	Msg string `json:"msg,omitempty"`
+}
+
+var tnames = []string{"t", "u"}
+
+func runServer(raw json.RawMessage) (any, error) {
+	var c SCase
+	if err := json.Unmarshal(raw, &c); err != nil {
+		return nil, err
+	}
+	setup := []string{"CREATE TABLE t (id int primary key auto_increment, v int)", "CREATE TABLE u (id int primary key auto_increment, v int)",
+		"CALL dolt_commit('-Am', 'init')"}
+	for b := 1; b < c.NBranch; b++ {
+		setup = append(setup, fmt.Sprintf("CALL dolt_branch('%s')", branchName(b)))
+	}
+	w, err := sqlsched.NewWorld(0, setup)
+	if err != nil {
+		return nil, err
+	}
+	defer w.Close()
+	cur := append([]int{}, c.Sess...)
+	isAuto := func(i int) bool {
+		for _, a := range c.Autos {
+			if a == i {
+				return true
+			}
+		}
+		return false
+	}
+	var sess []*util.Session
+	open := func() error {
+		sess = nil
+		for i := range c.Sess {
+			s, err := w.Env.NewSession()
+			if err != nil {
+				return err
+			}
+			mode := "SET autocommit = 0"
+			if isAuto(i) {
+				mode = "SET autocommit = 1"
+			}
+			if err := s.MustExec(mode, "ROLLBACK", fmt.Sprintf("CALL dolt_checkout('%s')", branchName(cur[i])), "COMMIT"); err != nil {
+				return err
+			}
+			sess = append(sess, s)
+		}
+		return nil
+	}
+	if err := open(); err != nil {
+		return nil, err
+	}
+	var o SObs
+	tag := 1000
+	for _, st := range c.Steps {
+		s, k, x, tb := st[0], st[1], st[2], tnames[st[3]%2]
+		id := -1
+		switch k {
+		case 0, 1:
+			tag++
+			q := fmt.Sprintf("INSERT INTO %s (v) VALUES (%d)", tb, tag)
+			if k == 1 {
+				q = fmt.Sprintf("INSERT INTO %s (id, v) VALUES (%d, %d)", tb, x, tag)
+			}
+			r := sqlsched.Exec(sess[s], q)
+			if r.Err != 0 {
+				id, o.Msg = -2, r.Msg
+				break
+			}
+			rb := sqlsched.Exec(sess[s], fmt.Sprintf("SELECT id FROM %s WHERE v = %d", tb, tag))
+			if rb.Err != 0 || len(rb.Rows) != 1 {
+				id, o.Msg = -2, "read back: "+rb.Msg
+			} else {
+				id = rb.Rows[0][0]
+			}
+		case 2:
+			if r := sqlsched.Exec(sess[s], "COMMIT"); r.Err != 0 {
+				id, o.Msg = -2, r.Msg
+			}
+		case 3:
+			if r := sqlsched.Exec(sess[s], "ROLLBACK"); r.Err != 0 {
+				id, o.Msg = -2, r.Msg
+			}
+		case 4:
+			if err := sess[s].MustExec("COMMIT", fmt.Sprintf("CALL dolt_checkout('%s')", branchName(x)), "COMMIT"); err != nil {
+				id, o.Msg = -2, err.Error()
+			}
+			cur[s] = x
+		case 5:
+			w.Env.Eng.Close()
+			se, _, err := engine.NewSqlEngineForEnv(context.Background(), w.Env.DEnv)
+			if err != nil {
+				return nil, err
+			}
+			w.Env.Eng = se
+			if err := open(); err != nil {
+				return nil, err
+			}
+		case 6:
+			if err := sess[s].MustExec("COMMIT", fmt.Sprintf("ALTER TABLE %s AUTO_INCREMENT = %d", tb, x), "COMMIT"); err != nil {
+				id, o.Msg = -2, err.Error()
+			}
+		}
+		o.Ids = append(o.Ids, id)
+	}
+	return o, nil
+}
+
 func Run(raw json.RawMessage) (any, error) {
+	var hdr struct {
+		Mode string `json:"mode"`
+	}
+	_ = json.Unmarshal(raw, &hdr)
+	if hdr.Mode == "server" {
+		return runServer(raw)
+	}
 	var c Case
 	if err := json.Unmarshal(raw, &c); err != nil {
 		return nil, err
